@@ -36,6 +36,10 @@ pub enum Plan11 {
     Reader { xof: String, seed: Hx, dst: Hx, binder: Hx, dst_cuts: Vec<u16>, binder_cuts: Vec<u16>, reads: Vec<Read> },
     Sampler { field: String, mode: String, script: Hx, count: u16, tail: u8 },
     EndToEnd { inst: Inst, ctx: Hx, nonce: Hx, rand: Hx, vk: Hx, meas: Vec<N>, tape: Vec<u32> },
+    /// a whole honest protocol run over SimXof where the streams of one derivation get
+    /// over-modulus chunks spliced in (element index, count) for ALL parties: every party must
+    /// skip them identically, so the report still verifies and aggregates to the same result
+    Rejections { inst: Inst, ctx: Hx, nonce: Hx, rand: Hx, vk: Hx, meas: Vec<N>, usage: u16, inserts: Vec<(u32, u8)>, plen: u16 },
 }
 
 pub struct Check11;
@@ -105,10 +109,35 @@ fn valid_chunk(field: &str, rng: &mut Rng) -> Vec<u8> {
     }
 }
 
+/// A whole honest run with over-modulus chunks spliced into the streams of one derivation.
+pub fn gen_rejections(rng: &mut Rng, poplar: bool) -> Plan11 {
+    let inst = if poplar {
+        let mut i = crate::inst_poplar::gen_poplar_inst(rng, false);
+        i.len = i.len.min(16);
+        i
+    } else {
+        let mut i = crate::inst::gen_prio3_inst(rng, true, false);
+        let mut g = 0;
+        while !matches!(i.class.as_str(), "count" | "sum" | "sumvec" | "hist" | "multihot") && g < 50 {
+            i = crate::inst::gen_prio3_inst(rng, true, false);
+            g += 1;
+        }
+        i.n = i.n.min(4);
+        i
+    };
+    let usage = if inst.class == "poplar1" { 1 + rng.below(4) as u16 } else { 1 + rng.below(5) as u16 };
+    let ni = 1 + rng.usize_below(3);
+    let mut inserts: Vec<(u32, u8)> = (0..ni).map(|_| (*rng.pick(&[0u32, 0, 1, 2, 3, 5, 8, 13, 31, 32, 33]), *rng.pick(&[1u8, 1, 2, 3, 33]))).collect();
+    inserts.sort();
+    inserts.dedup_by_key(|x| x.0);
+    let cl = *rng.pick(&[0usize, 1, 7]);
+    Plan11::Rejections { ctx: Hx(rng.bytes(cl)), nonce: Hx(rng.bytes(16)), rand: Hx(rng.bytes(model::rand_len(&inst))), vk: Hx(rng.bytes(32)), meas: model::gen_meas(&inst, rng), usage, inserts, plen: rng.u32() as u16, inst }
+}
+
 fn gen(seed: u64, _tier: Tier) -> Plan11 {
     let mut rng = Rng::new(seed);
     let rng = &mut rng;
-    match rng.below(10) {
+    match rng.below(11) {
         0..=3 => {
             let xof = *rng.pick(&["turboshake", "hmac", "fixedkey", "fixedkey_key"]);
             let sl = if xof.starts_with("fixedkey") { 16 } else { 32 };
@@ -170,6 +199,10 @@ fn gen(seed: u64, _tier: Tier) -> Plan11 {
                 _ => 1 + rng.below(good.max(1) as u64) as u16,
             };
             Plan11::Sampler { field: field.to_string(), mode: mode.to_string(), script: Hx(script), count: count.max(1), tail: *rng.pick(&[0u8, 1, 0xff]) }
+        }
+        8 => {
+            let poplar = rng.chance(1, 3);
+            gen_rejections(rng, poplar)
         }
         _ => {
             let inst = if rng.chance(1, 4) {
@@ -378,6 +411,96 @@ fn e2e_prio3<T: Type + Clone>(ctx: &mut Ctx, typ: T, inst: &Inst, alg: u32, meas
     Ok(())
 }
 
+/// Object-level honest run: verify at both/all aggregators, combine, finish, aggregate, unshard.
+fn full_run<V>(v: &V, c: &[u8], vk: &[u8; 32], nonce: &[u8; 16], ap: &V::AggregationParam, public: &V::PublicShare, shares: &[V::InputShare]) -> Result<String, String>
+where
+    V: Aggregator<32, 16> + prio::vdaf::Collector,
+    V::AggregateResult: std::fmt::Debug,
+{
+    use prio::vdaf::VerifyTransition;
+    let n = shares.len();
+    let mut states = Vec::new();
+    let mut vs = Vec::new();
+    for j in 0..n {
+        let (st, sh) = v.verify_init(vk, c, j, ap, nonce, public, &shares[j]).map_err(|e| format!("verify_init({j}): {e}"))?;
+        states.push(st);
+        vs.push(sh);
+    }
+    let mut outs = Vec::new();
+    for _round in 0..4 {
+        let msg = v.verifier_shares_to_message(c, ap, vs.clone()).map_err(|e| format!("verifier_shares_to_message: {e}"))?;
+        let mut next_states = Vec::new();
+        let mut next_vs = Vec::new();
+        for st in states.iter() {
+            match v.verify_next(c, st.clone(), msg.clone()).map_err(|e| format!("verify_next: {e}"))? {
+                VerifyTransition::Continue(s2, sh2) => {
+                    next_states.push(s2);
+                    next_vs.push(sh2);
+                }
+                VerifyTransition::Finish(o) => outs.push(o),
+            }
+        }
+        if outs.len() == n {
+            break;
+        }
+        if !outs.is_empty() {
+            return Err("aggregators finished in different rounds".into());
+        }
+        states = next_states;
+        vs = next_vs;
+    }
+    if outs.len() != n {
+        return Err("did not finish".into());
+    }
+    let mut aggs = Vec::new();
+    for o in outs {
+        aggs.push(v.aggregate(ap, [o]).map_err(|e| format!("aggregate: {e}"))?);
+    }
+    let r = v.unshard(ap, aggs, 1).map_err(|e| format!("unshard: {e}"))?;
+    Ok(format!("{r:?}"))
+}
+
+fn insertions(inserts: &[(u32, u8)], fs: usize) -> Vec<(usize, Vec<u8>)> {
+    // offsets are in OUTPUT coordinates: earlier insertions shift later ones
+    let mut out = Vec::new();
+    let mut shift = 0usize;
+    for (idx, cnt) in inserts {
+        let bytes = vec![0xffu8; fs * *cnt as usize];
+        out.push((*idx as usize * fs + shift, bytes.clone()));
+        shift += bytes.len();
+    }
+    out
+}
+
+fn rej_prio3<T: Type + Clone>(ctx: &mut Ctx, typ: T, inst: &Inst, alg: u32, meas: T::Measurement, c: &[u8], nonce: &[u8; 16], rand: &[u8], vk: &[u8; 32], usage: u16, inserts: &[(u32, u8)]) -> Result<(), String>
+where
+    T::AggregateResult: std::fmt::Debug,
+{
+    let plain: Prio3<T, XofTurboShake128, 32> = Prio3::new(inst.n, inst.proofs, alg, typ.clone()).map_err(|e| e.to_string())?;
+    let sim: Prio3<T, SimXof, 32> = Prio3::new(inst.n, inst.proofs, alg, typ).map_err(|e| e.to_string())?;
+    let (p0, s0) = plain.shard_with_random(c, &meas, nonce, rand).map_err(|e| e.to_string())?;
+    let want = full_run(&plain, c, vk, nonce, &(), &p0, &s0)?;
+    let fs = <T::Field as FieldElement>::ENCODED_SIZE;
+    sim_xof::install(XofCfg { tape: vec![], inject: Some((usage, insertions(inserts, fs))), ..Default::default() });
+    let r = guard("Prio3<SimXof> honest run with spliced rejections", || -> Result<String, String> {
+        let (p1, s1) = sim.shard_with_random(c, &meas, nonce, rand).map_err(|e| format!("shard: {e}"))?;
+        full_run(&sim, c, vk, nonce, &(), &p1, &s1)
+    });
+    let cfg = sim_xof::take();
+    ctx.events += cfg.inits;
+    match r {
+        Err(v) => ctx.fail(v),
+        Ok(Err(e)) => ctx.fail(Violation::new("C11.rejections", format!("prio3|{}|usage{usage}", inst.class), format!("Prio3 {}: with over-modulus chunks {:?} spliced into every usage-{usage} stream (for all parties alike) the honest report no longer verifies: {e}", inst.class, inserts))),
+        Ok(Ok(got)) => {
+            if got != want {
+                ctx.fail(Violation::new("C11.rejections", format!("prio3|{}|usage{usage}|result", inst.class), format!("Prio3 {}: spliced rejections changed the aggregate result: {got} vs {want}", inst.class)));
+            }
+            ctx.counters.inc("c11.rejection_runs_ok");
+        }
+    }
+    Ok(())
+}
+
 fn exec(p: &Plan11, ctx: &mut Ctx) -> Result<(), String> {
     ctx.nontrivial = true;
     match p {
@@ -435,6 +558,59 @@ fn exec(p: &Plan11, ctx: &mut Ctx) -> Result<(), String> {
                 _ => sampler_case::<Field255>(ctx, field, mode, &script.0, *tail, *count as usize),
             }
             Ok(())
+        }
+        Plan11::Rejections { inst, ctx: c, nonce, rand, vk, meas, usage, inserts, plen } => {
+            ctx.sig.str("rej").str(&inst.class).u64(inst.n as u64).u64(*usage as u64);
+            for i in inserts {
+                ctx.sig.u64(i.0 as u64 * 256 + i.1 as u64);
+            }
+            ctx.counters.inc(&format!("rej.{}.usage{usage}", inst.class));
+            ctx.fault("spliced_rejections");
+            let mut n16 = [0u8; 16];
+            n16.copy_from_slice(&nonce.0);
+            let mut k32 = [0u8; 32];
+            k32.copy_from_slice(&vk.0);
+            let max = inst.max.0;
+            let len = inst.len as usize;
+            let chunk = inst.chunk as usize;
+            type PS = ParallelSum<Field128, Mul>;
+            match inst.class.as_str() {
+                "count" => rej_prio3(ctx, Count::<Field64>::new(), inst, 1, meas[0].0 != 0, &c.0, &n16, &rand.0, &k32, *usage, inserts),
+                "sum" => rej_prio3(ctx, Sum::<Field64>::new(max as u64).map_err(|e| e.to_string())?, inst, 2, meas[0].0 as u64, &c.0, &n16, &rand.0, &k32, *usage, inserts),
+                "sumvec" => rej_prio3(ctx, SumVec::<Field128, PS>::new(max, len, chunk).map_err(|e| e.to_string())?, inst, 3, meas.iter().map(|x| x.0).collect::<Vec<u128>>(), &c.0, &n16, &rand.0, &k32, *usage, inserts),
+                "hist" => rej_prio3(ctx, Histogram::<Field128, PS>::new(len, chunk).map_err(|e| e.to_string())?, inst, 4, meas[0].0 as usize, &c.0, &n16, &rand.0, &k32, *usage, inserts),
+                "multihot" => rej_prio3(ctx, MultihotCountVec::<Field128, PS>::new(len, inst.weight as usize, chunk).map_err(|e| e.to_string())?, inst, 5, meas.iter().map(|x| x.0 != 0).collect::<Vec<bool>>(), &c.0, &n16, &rand.0, &k32, *usage, inserts),
+                "poplar1" => {
+                    let plain: Poplar1<XofTurboShake128, 32> = Poplar1::new(len);
+                    let sim: Poplar1<SimXof, 32> = Poplar1::new(len);
+                    let input = crate::inst_poplar::bits_to_input(meas);
+                    let l = 1 + *plen as usize % len;
+                    let ap = prio::vdaf::poplar1::Poplar1AggregationParam::try_from_prefixes(vec![input.prefix(l - 1)]).map_err(|e| e.to_string())?;
+                    let (p0, s0) = plain.shard_with_random(&c.0, &input, &n16, &rand.0).map_err(|e| e.to_string())?;
+                    let want = full_run(&plain, &c.0, &k32, &n16, &ap, &p0, &s0)?;
+                    // element size of the spliced chunks: leaf-field streams are 32-byte chunks
+                    let fs = if *usage == 3 || (*usage == 4 && l == len) { 32 } else { 8 };
+                    sim_xof::install(XofCfg { tape: vec![], inject: Some((*usage, insertions(inserts, fs))), ..Default::default() });
+                    let r = guard("Poplar1<SimXof> honest run with spliced rejections", || -> Result<String, String> {
+                        let (p1, s1) = sim.shard_with_random(&c.0, &input, &n16, &rand.0).map_err(|e| format!("shard: {e}"))?;
+                        full_run(&sim, &c.0, &k32, &n16, &ap, &p1, &s1)
+                    });
+                    let cfg = sim_xof::take();
+                    ctx.events += cfg.inits;
+                    match r {
+                        Err(v) => ctx.fail(v),
+                        Ok(Err(e)) => ctx.fail(Violation::new("C11.rejections", format!("poplar1|usage{usage}"), format!("Poplar1 (bits {len}, prefix length {l}): with over-modulus chunks {inserts:?} spliced into every usage-{usage} stream (for all parties alike) the honest report no longer verifies: {e}"))),
+                        Ok(Ok(got)) => {
+                            if got != want {
+                                ctx.fail(Violation::new("C11.rejections", format!("poplar1|usage{usage}|result"), format!("Poplar1: spliced rejections changed the result: {got} vs {want}")));
+                            }
+                            ctx.counters.inc("c11.rejection_runs_ok");
+                        }
+                    }
+                    Ok(())
+                }
+                c => Err(format!("class {c} not wired for the rejection run")),
+            }
         }
         Plan11::EndToEnd { inst, ctx: c, nonce, rand, vk, meas, tape } => {
             ctx.sig.str("e2e").str(&inst.class).u64(inst.n as u64).u64(inst.len as u64).u64(tape.len() as u64 / 8);
@@ -514,8 +690,13 @@ fn exec(p: &Plan11, ctx: &mut Ctx) -> Result<(), String> {
 }
 
 fn exec_top(p: &Plan11, counters: &mut Counters) -> Result<RunOut, String> {
+    exec_top_with(p, counters, ACCEPT)
+}
+
+/// Execute a stream-world plan on behalf of another check (C01 / C03 borrow the rejection runs).
+pub fn exec_top_with(p: &Plan11, counters: &mut Counters, accept: &'static [&'static str]) -> Result<RunOut, String> {
     let r = guard_run(|| {
-        let mut ctx = Ctx::new(counters, ACCEPT);
+        let mut ctx = Ctx::new(counters, accept);
         let r = exec(p, &mut ctx);
         sim_xof::take();
         r.map(|_| ctx.finish())
@@ -575,6 +756,15 @@ impl Check for Check11 {
                 if *count > 1 {
                     out.push(Plan11::Sampler { field: field.clone(), mode: mode.clone(), script: script.clone(), count: count / 2, tail: *tail });
                     out.push(Plan11::Sampler { field: field.clone(), mode: mode.clone(), script: script.clone(), count: count - 1, tail: *tail });
+                }
+            }
+            Plan11::Rejections { inst, ctx, nonce, rand, vk, meas, usage, inserts, plen } => {
+                for i in 0..inserts.len() {
+                    if inserts.len() > 1 {
+                        let mut v = inserts.clone();
+                        v.remove(i);
+                        out.push(Plan11::Rejections { inst: inst.clone(), ctx: ctx.clone(), nonce: nonce.clone(), rand: rand.clone(), vk: vk.clone(), meas: meas.clone(), usage: *usage, inserts: v, plen: *plen });
+                    }
                 }
             }
             Plan11::EndToEnd { inst, ctx, nonce, rand, vk, meas, tape } => {
